@@ -220,3 +220,4 @@ func Word(addr []byte) []byte {
 
 // BalanceReaderInit is the init code of the balance-reader template (used by scenario templates).
 func BalanceReaderInit() []byte { return Deploy(balanceReader()) }
+func GasBurnerInit() []byte     { return Deploy(gasBurner()) }
